@@ -219,7 +219,8 @@ def closeGot (w : World) (_k : PduK) (r : List PduK) : Step := closeFinish (with
 
 def bodyClose (w : World) : Step :=
   if w.s.kind = .dlc ∧ w.s.isEst ∧ w.s.bound then
-    takeRecv (withS w { w.s with st := .disconnect, sendQ := w.s.sendQ ++ [.disc] }) closeGot
+    -- unsent PDUs are discarded, then the DISC is queued (tco.py: send_queue.clear() before the append)
+    takeRecv (withS w { w.s with st := .disconnect, sendQ := [.disc] }) closeGot
   else closeFinish w
 
 def pollRecvNow (w : World) : Step :=
